@@ -586,6 +586,14 @@ func expandParameterOrResponse(input interface{}, resolver *schemaLoader, basePa
 			} else {
 				sch.Ref = rebasedRef
 			}
+
+			// the $ref is now expressed relative to the root document: do not resolve it
+			// again against the base path of the document this parameter or response comes from
+			if ref != nil {
+				*ref = Ref{}
+			}
+
+			return nil
 		}
 	}
 
